@@ -213,6 +213,9 @@ func (rangeEngine) Gen(rng *rand.Rand, tier string, i int) any {
 				// a client identifier that equals another client's hardware address bytes
 				id, _ = hex.DecodeString(c.Clients[rng.Intn(len(c.Clients))].Mac)
 			}
+			if rng.Intn(2) == 0 {
+				id = clientID61(rng, m)
+			}
 			if len(id) > 0 {
 				cl.ClientID = hex.EncodeToString(id)
 			}
@@ -270,6 +273,10 @@ func (r *rangeRun) request(cl rangeClient, mt byte) []byte {
 	if cl.HasH {
 		h, _ := hex.DecodeString(cl.Host)
 		opts = append(opts, pkt.O4(12, h...))
+	}
+	if r.xid%6 == 4 {
+		// a client that (also, or instead) tells its name in a Client FQDN option
+		opts = append(opts, fqdn81(r.rng))
 	}
 	if mt == 3 {
 		opts = append(opts, pkt.O4(50, 10, 1, 2, 3))
